@@ -75,6 +75,13 @@ func diffCounts(exp, got map[string]int) string {
 // deliveries.  tagOf maps receiver node keys to the tag of the payload that was
 // injected there.
 func MatchRecords(plan *Plan, tagOf map[string]string, recs []Record, budget int) Match {
+	return MatchRecordsBare(plan, tagOf, nil, recs, budget)
+}
+
+// MatchRecordsBare is MatchRecords where the payloads of the tags in bare were emitted without any
+// resource: nobody on the way can leave a mark in them, so their expected payload trail is empty and only
+// the hop list carried by the context tells the path.
+func MatchRecordsBare(plan *Plan, tagOf map[string]string, bare map[string]bool, recs []Record, budget int) Match {
 	byTag := map[string][]Record{}
 	known := map[string]bool{}
 	for _, t := range tagOf {
@@ -108,7 +115,12 @@ func MatchRecords(plan *Plan, tagOf map[string]string, recs []Record, budget int
 		rk := strings.Join(recvOf[tag], "+")
 		var exp []Delivery
 		for _, r := range recvOf[tag] {
-			exp = append(exp, plan.Deliveries[r]...)
+			for _, d := range plan.Deliveries[r] {
+				if bare[tag] {
+					d.Trail = nil
+				}
+				exp = append(exp, d)
+			}
 		}
 		got := byTag[tag]
 		ce, co := map[string]int{}, map[string]int{}
